@@ -77,7 +77,7 @@ def lrc_obligations(ctx, queries, prefix=""):
                 sl_use = "full"
             else:
                 sl_use = sl
-            groups = ["bin-left", "bin-right", "uminus-right", "not-right", "suffix-left", "index-left"] if q == "patterns" else [None]
+            groups = ["bin-left", "bin-right", "uminus-right", "not-right", "suffix-left", "index-left", "ifexpr-left"] if q == "patterns" else [None]
             for g in groups:
               for cube in (cubes if q in ("consistency", "error_token", "completeness", "soundness") else [None]):
                 oid = f"{prefix}{q}.{sl_use}" + (f".{g}" if g else "") + (f".cube{cube[0]}of{cube[1]}" if cube else "")
@@ -98,6 +98,14 @@ def lrc_obligations(ctx, queries, prefix=""):
 
 def plan(ctx):
     obs = lrc_obligations(ctx, ["soundness", "completeness", "patterns"])
+    from sqv.harness import txt
+    T = 50 if ctx["tier"] == "quick" else 300
+    for i, prog in enumerate(txt.PROGRAMS):
+        obs.append(Obligation(f"txt.soundness.p{i}", "xh", "txt", "error_line", param={"program": i, "soundness": True}, timeout=T * 6,
+                              bounds="one of 18 concrete programs; stray text from 26 samples inserted at (or the text truncated at) every token boundary, under LF / CRLF / ; variants; "
+                                     "with / without an earlier list_names() and a parse cache (finite domain chosen by the solver, boundaries looped natively; real lexer+parser)",
+                              desc=f"program {i} damaged at every token boundary: if the real parser accepts the text, the published token definitions accept it and the published productions derive its token string "
+                                   "(independent tokeniser + Earley recogniser over spec/grammar_ref.json; line breaks inside brackets dropped, ';' always a separator)"))
     obs += lxc_obligations(ctx, ["reference"])
     return {
         "obligations": obs,
